@@ -21,8 +21,8 @@ pub struct Case {
 
 pub struct C12;
 
-const ALPHA_CP: &[&str] = &["a", "b", "c", " ", "a", "b", " ", "ä", "中", "\n", "\u{3000}"];
-const ALPHA_G: &[&str] = &[
+pub const ALPHA_CP: &[&str] = &["a", "b", "c", " ", "a", "b", " ", "ä", "中", "\n", "\u{3000}"];
+pub const ALPHA_G: &[&str] = &[
     "a", "b", "c", " ", "a", "b", " ", "ä", "中", "e\u{301}", "👩\u{200d}👩\u{200d}👧", "\r\n", "🇩🇪",
     "\u{301}", "\u{200d}",
 ];
@@ -160,6 +160,11 @@ fn apply_script(
 impl Prop for C12 {
     type Case = Case;
     const ID: &'static str = "C12";
+    const FUZZ_TARGET: Option<&'static str> = Some("edit_diff");
+    const FUZZ_RUNS: u64 = 3000000;
+    fn fuzz_decode(bytes: &[u8]) -> Option<Case> {
+        crate::fuzzdec::c12(bytes)
+    }
     const RULE: &'static str = "pairs (plus a third string) over dense small alphabets incl. whitespace, multi-byte and multi-code-point clusters: independent, derived by 1-5 random edits/transpositions/space moves, long (<=40), or arbitrary Unicode fragments; x use_graphemes x with_swap x spaces_insert_delete_only; every case checks distance, normalised distance, prefix distance, distances() and the operations() script against a suffix-recursive reference DP. Non-trivial: reference distance >= 2 and < max(len) (at least one character kept). Distinct = distinct serialised case.";
     const ESSENTIAL: &'static [&'static str] = &["swap_used", "ws_restricted_differs", "empty_side", "both_empty", "grapheme_multi_cp"];
 
